@@ -30,7 +30,7 @@ func init() { core.Register(check{}) }
 func (check) ID() string    { return "C02" }
 func (check) Level() string { return "exploration" }
 func (check) Rule() string {
-	return "bounded-exhaustive, simplest first: every scalar type x boundary value alphabet x position (struct field, list/set element, map value, map key, top-level) x 6 number spellings; string alphabet (escapes, surrogates, lengths around 16/32/64/4096) x 5 escape spellings x position; every shape of T(1) u T(2) without struct keys x container size 0..3 x 4 whitespace spellings; all member orders x {present,null,absent}^3 x unknown members (6 kinds x 4 positions); key spellings x MapFieldWay; all 2^5 option subsets x tailored documents; every single-token deletion/duplication and the JSON-kind x thrift-type mismatch table; each document through Do and through DoInto with cap-len = len(src)+k for every k in the tier's range; native cache deviations (seeded ReqsCache/KeyCache/FieldCache capacities, keys of 1023..1025/4097 bytes, wide and deep structs). A case is one (program, document, option set); it is non-trivial when distinct by those and at least one conversion ran. Later additions: multi-file programs, sibling containers, histories of length 2 (after a failing document), SetOptions twin, arena-backed DoInto buffers, top-level strings followed by blanks, a hash-mode struct with DJB-colliding names, overwriting of the pooled buffers right after Do. Round 8: every scenario expressible over the pipe server also runs through the portable converter (second binary)."
+	return "bounded-exhaustive, simplest first: every scalar type x boundary value alphabet x position (struct field, list/set element, map value, map key, top-level) x 6 number spellings; string alphabet (escapes, surrogates, lengths around 16/32/64/4096) x 5 escape spellings x position; every shape of T(1) u T(2) without struct keys x container size 0..3 x 4 whitespace spellings; all member orders x {present,null,absent}^3 x unknown members (6 kinds x 4 positions); key spellings x MapFieldWay; all 2^5 option subsets x tailored documents; every single-token deletion/duplication and the JSON-kind x thrift-type mismatch table; each document through Do and through DoInto with cap-len = len(src)+k for every k in the tier's range; native cache deviations (seeded ReqsCache/KeyCache/FieldCache capacities, keys of 1023..1025/4097 bytes, wide and deep structs). A case is one (program, document, option set); it is non-trivial when distinct by those and at least one conversion ran. Later additions: multi-file programs, sibling containers, histories of length 2 (after a failing document), SetOptions twin, arena-backed DoInto buffers, top-level strings followed by blanks, a hash-mode struct with DJB-colliding names, overwriting of the pooled buffers right after Do. Round 8: every scenario expressible over the pipe server also runs through the portable converter (second binary). Round 9: the options group (js_conv, base include) also runs through the portable converter; js_conv integers beyond 2^53."
 }
 
 func (check) Assumptions() []string {
